@@ -12,6 +12,7 @@ from vlib.runner import Eval
 
 ID = "C07"
 LEVEL = "exploration"
+CGF_RUNS = {"thorough": 3000}  # coverage-guided stage (vlib/cgf.py): libFuzzer executions per worker, 16 workers
 RULE = (
     "Rules from the broadest generator (any operator leading, operand lists shorter/equal/longer than the instruction's, times incl. min:0, single-use "
     "captures, $deref, the shipped tests/macros/jasm_macros.yaml passed through macros= with @any as mnemonic/operand/deref component and the group macros) "
